@@ -40,6 +40,114 @@ pub enum PolytopeStatus {
     Error(String),
 }
 
+/// Fault injection for verification builds (`--cfg affinitree_verif`): a thread-local plan
+/// decides, per call of [`Polytope::solve_linprog`], whether the solver's answer is replaced.
+#[cfg(affinitree_verif)]
+pub mod verif_hooks {
+    use std::cell::{Cell, RefCell};
+
+    use ndarray::Array1;
+
+    use super::{Polytope, PolytopeStatus};
+
+    #[derive(Clone, Debug, PartialEq)]
+    pub enum Fault {
+        /// the backend reports an error
+        Error(String),
+        /// the backend reports an unbounded objective
+        Unbounded,
+        /// the backend's optimal point is moved by the given distance beyond the tightest row
+        Perturbed(f64),
+        /// the given offset is added to every coordinate of the backend's optimal point
+        FarOff(f64),
+    }
+
+    thread_local! {
+        static PLAN: RefCell<Vec<(usize, Fault)>> = const { RefCell::new(Vec::new()) };
+        static CALLS: Cell<usize> = const { Cell::new(0) };
+        static INJECTED: Cell<usize> = const { Cell::new(0) };
+        static BYPASS: Cell<bool> = const { Cell::new(false) };
+    }
+
+    /// Installs a plan (call index -> fault) and resets the counters.
+    pub fn set_plan(plan: Vec<(usize, Fault)>) {
+        PLAN.with(|p| *p.borrow_mut() = plan);
+        CALLS.with(|c| c.set(0));
+        INJECTED.with(|c| c.set(0));
+    }
+
+    /// Removes the plan and resets the counters.
+    pub fn clear() {
+        set_plan(Vec::new());
+    }
+
+    /// Number of `solve_linprog` calls since the plan was installed.
+    pub fn calls() -> usize {
+        CALLS.with(|c| c.get())
+    }
+
+    /// Number of faults that were actually injected.
+    pub fn injected() -> usize {
+        INJECTED.with(|c| c.get())
+    }
+
+    /// Called at the top of `solve_linprog`; `Some` replaces the solver's answer.
+    pub fn intercept(poly: &Polytope, coeffs: &Array1<f64>) -> Option<PolytopeStatus> {
+        if BYPASS.with(|b| b.get()) {
+            return None;
+        }
+        let idx = CALLS.with(|c| {
+            let v = c.get();
+            c.set(v + 1);
+            v
+        });
+        let fault = PLAN.with(|p| p.borrow().iter().find(|(i, _)| *i == idx).map(|(_, f)| f.clone()))?;
+        INJECTED.with(|c| c.set(c.get() + 1));
+        match fault {
+            Fault::Error(msg) => Some(PolytopeStatus::Error(msg)),
+            Fault::Unbounded => Some(PolytopeStatus::Unbounded),
+            Fault::Perturbed(eps) => {
+                BYPASS.with(|b| b.set(true));
+                let real = poly.solve_linprog(coeffs.clone(), false);
+                BYPASS.with(|b| b.set(false));
+                match real {
+                    PolytopeStatus::Optimal(w) => {
+                        // move the point out through the row with the smallest normalised slack
+                        let mut best: Option<(usize, f64, f64)> = None;
+                        for (i, row) in poly.mat.rows().into_iter().enumerate() {
+                            let norm = row.dot(&row).sqrt();
+                            if norm == 0.0 {
+                                continue;
+                            }
+                            let slack = (poly.bias[i] - row.dot(&w)) / norm;
+                            if best.map(|b| slack < b.1).unwrap_or(true) {
+                                best = Some((i, slack, norm));
+                            }
+                        }
+                        match best {
+                            Some((i, slack, norm)) => {
+                                let dir = poly.mat.row(i).to_owned() / norm;
+                                Some(PolytopeStatus::Optimal(&w + &(dir * (slack.max(0.0) + eps))))
+                            }
+                            None => Some(PolytopeStatus::Optimal(w)),
+                        }
+                    }
+                    other => Some(other),
+                }
+            }
+            Fault::FarOff(off) => {
+                BYPASS.with(|b| b.set(true));
+                let real = poly.solve_linprog(coeffs.clone(), false);
+                BYPASS.with(|b| b.set(false));
+                match real {
+                    PolytopeStatus::Optimal(w) => Some(PolytopeStatus::Optimal(w.mapv(|x| x + off))),
+                    other => Some(other),
+                }
+            }
+        }
+    }
+}
+
 /// # LP solving
 impl Polytope {
     pub fn remove_redundant_row_constraints(&self) -> Result<Polytope, String> {
@@ -101,6 +209,10 @@ impl Polytope {
     /// s.t. self.mat @ x <= self.bias
     #[cfg(feature = "minilp")]
     pub fn solve_linprog(&self, coeffs: Array1<f64>, _verbose: bool) -> PolytopeStatus {
+        #[cfg(affinitree_verif)]
+        if let Some(status) = verif_hooks::intercept(self, &coeffs) {
+            return status;
+        }
         let problem = self.as_linprog(coeffs);
         let pb = problem.solver;
         let vars = problem.vars;
@@ -155,6 +267,10 @@ impl Polytope {
     /// s.t. mat x <= bias
     #[cfg(feature = "highs")]
     pub fn solve_linprog(&self, coeffs: Array1<f64>, verbose: bool) -> PolytopeStatus {
+        #[cfg(affinitree_verif)]
+        if let Some(status) = verif_hooks::intercept(self, &coeffs) {
+            return status;
+        }
         let mut pb = RowProblem::default();
 
         // create the variables for the linear program (objective function + variable bounds)
